@@ -36,6 +36,16 @@ func runC09(c *Ctx, r *Rec) {
 	info := c.info("agent")
 	ms := c.methodsOf(srt)
 	checkSorterKeepsNothing(c, r, "D6-operand-not-kept", srt)
+	{
+		fds := fileFuncs(c, "agent", srt)
+		for _, nm := range []string{"ArrayLike", "ListLike", "CatalogLike"} {
+			if n, err := c.impl("collection", nm); err == nil && n != nil {
+				fds = append(fds, fileFuncs(c, "collection", n)...)
+			}
+		}
+		shapeLints(c, r, fds)
+	}
+	checkRandomLimitPositive(c, r, "D6-random-limit-positive", append(c.allFuncDecls("agent"), c.allFuncDecls("collection")...))
 	// ---- D1
 	for _, name := range sortedKeys(ms) {
 		checkLoops(c, r, "D1-terminates-for-every-ranker", ms[name], nil)
